@@ -121,18 +121,47 @@ package core
 // absent or the end-of-file token; the parser measure counts the unread input three times plus the two buffered
 // tokens, so that every shift of the token window (nextToken) decreases it unless both buffered tokens are
 // already weightless - and in that state every loop of the parser stops.
-//@ spec abstract func lexRem(l *Lexer) int
+//@ spec func lexRem(l *Lexer) int = rdlen(l.reader) - rdpos(l.reader)
 //@ spec func tokW(t *Token) int = (isnil(t) || t.Type == TokenEOF) ? 0 : 1
 //@ spec func pM(p *Parser) int = 3 * lexRem(p.lexer) + 2 * tokW(p.peekToken) + tokW(p.currentToken)
-//@ spec func cpinv(p *Parser) bool = !isnil(p.lexer) && lexRem(p.lexer) >= 0
+//@ spec func cpinv(p *Parser) bool = !isnil(p.lexer) && !isnil(p.lexer.reader) && lexRem(p.lexer) >= 0
 
-//@ func (*Lexer) NextToken results (tok, err)
+// ---- the lexer over an ideal byte stream (bufio.Reader model: rddata / rdpos / rdbuf) ----
+//@ spec func lsame(l *Lexer, m *Lexer) bool = same(rddata(l.reader), rddata(m.reader))
+
+//@ func (*Lexer) readByte results (b, err)
 //@   property C02
-//@   flags trusted
-//@   requires lexRem(l) >= 0
-//@   ensures lexRem(l) >= 0 && lexRem(l) <= old(lexRem(l))
-//@   ensures !err ==> !isnil(tok)
-//@   ensures !err && tok.Type != TokenEOF ==> lexRem(l) < old(lexRem(l))
+//@   requires !isnil(l.reader)
+//@   ensures consumed_one: !err ==> rdpos(l.reader) == old(rdpos(l.reader)) + 1 && b == rdat(old(l.reader), old(rdpos(l.reader))) && old(rdpos(l.reader)) < rdlen(l.reader)
+//@   ensures failed_nothing_consumed: err ==> rdpos(l.reader) == old(rdpos(l.reader))
+//@   ensures stream_kept: lsame(l, old(l)) && !isnil(l.reader) && rdbuf(l.reader) >= old(rdbuf(l.reader)) - 1
+//@   ensures peeked_byte_is_there: old(rdbuf(l.reader)) >= 1 && !old(rdbad(l.reader)) ==> !err
+//@   ensures failures_stick: (old(rdbad(l.reader)) ==> err) && (rdbad(l.reader) <==> (old(rdbad(l.reader)) || (err && old(rdpos(l.reader)) < rdlen(l.reader))))
+
+//@ func (*Lexer) peek results (b, err)
+//@   property C02
+//@   requires !isnil(l.reader)
+//@   ensures next_byte: !err ==> rdpos(l.reader) < rdlen(l.reader) && b == rdat(l.reader, rdpos(l.reader)) && rdbuf(l.reader) >= 1
+//@   ensures nothing_consumed: rdpos(l.reader) == old(rdpos(l.reader)) && lsame(l, old(l)) && !isnil(l.reader) && rdbuf(l.reader) >= old(rdbuf(l.reader))
+//@   ensures failures_stick: (old(rdbad(l.reader)) ==> err) && (rdbad(l.reader) <==> (old(rdbad(l.reader)) || (err && rdpos(l.reader) < rdlen(l.reader))))
+
+//@ func (*Lexer) peekN results (bs, err)
+//@   property C02
+//@   requires !isnil(l.reader)
+//@   ensures next_bytes: !err ==> len(bs) == n && rdbuf(l.reader) >= n && forall k int :: {bs[k]} 0 <= k && k < n ==> bs[k] == rdat(l.reader, rdpos(l.reader) + k)
+//@   ensures nothing_consumed: rdpos(l.reader) == old(rdpos(l.reader)) && lsame(l, old(l)) && !isnil(l.reader) && rdbuf(l.reader) >= old(rdbuf(l.reader))
+//@   ensures failures_stick: (old(rdbad(l.reader)) ==> err) && (rdbad(l.reader) <==> (old(rdbad(l.reader)) || (err && rdpos(l.reader) + n <= rdlen(l.reader))))
+
+// white space (ISO 32000 7.2.2) is skipped, nothing else: afterwards the next byte (if any) is not white space
+//@ func (*Lexer) skipWhitespace results (skipped, err)
+//@   property C02, C06
+//@   requires !isnil(l.reader)
+//@   ensures only_white_space_skipped: rdpos(l.reader) >= old(rdpos(l.reader)) && forall k int :: {rdat(l.reader, k)} old(rdpos(l.reader)) <= k && k < rdpos(l.reader) ==> pdfWS(rdat(l.reader, k))
+//@   ensures stops_at_a_token_byte: !err ==> rdpos(l.reader) < rdlen(l.reader) && !pdfWS(rdat(l.reader, rdpos(l.reader))) && rdbuf(l.reader) >= 1
+//@   ensures stream_kept: lsame(l, old(l)) && !isnil(l.reader) && (old(rdbad(l.reader)) ==> rdbad(l.reader))
+//@   loop 0:
+//@     invariant (old(rdbad(l.reader)) ==> rdbad(l.reader)) && !isnil(l.reader) && lsame(l, old(l)) && rdpos(l.reader) >= old(rdpos(l.reader)) && forall k int :: {rdat(l.reader, k)} old(rdpos(l.reader)) <= k && k < rdpos(l.reader) ==> pdfWS(rdat(l.reader, k))
+//@     decreases rdlen(l.reader) - rdpos(l.reader)
 
 //@ func (*Parser) nextToken results (err)
 //@   property C02
@@ -188,8 +217,17 @@ package core
 
 //@ func NewLexer results (l)
 //@   property C02
-//@   flags trusted
-//@   ensures !isnil(l) && lexRem(l) >= 0
+//@   ensures !isnil(l) && !isnil(l.reader) && lexRem(l) >= 0
+
+// Every token other than the end-of-file token consumes input; nothing is ever un-read past the starting point.
+// Tokenisation by the classes of ISO 32000 7.2: white space skipped, % comment, [ ] ( < << > >> / delimiters,
+// numbers start with a digit, sign or point, everything alphabetic is a keyword.
+//@ func (*Lexer) NextToken results (tok, err)
+//@   property C02, C06
+//@   requires !isnil(l.reader) && lexRem(l) >= 0
+//@   ensures lexRem(l) >= 0 && lexRem(l) <= old(lexRem(l)) && !isnil(l.reader)
+//@   ensures !err ==> !isnil(tok)
+//@   ensures !err && tok.Type != TokenEOF ==> lexRem(l) < old(lexRem(l))
 
 //@ func NewParser results (np)
 //@   property C02
@@ -232,3 +270,90 @@ package core
 //@   loop 0:
 //@     invariant 0 <= i && i <= len(filterArray)
 //@     step in_array_order: sameseq(data, decodeWithFilter(prev(data), astype(filterArray[i], Name), params))
+
+// ---- token readers: progress (C02) and per-element lexical semantics (C06, the SAME specification functions as the
+// content-stream parser's contracts: litNext / litDepth / litEmits / litByte, pdfWS / pdfHexDigit, nameEsc) ----
+
+// ISO 32000-1 7.3.4.2 literal strings
+//@ func (*Lexer) readString results (tok, err)
+//@   property C02, C06
+//@   requires !isnil(l.reader)
+//@   ensures progress: rdpos(l.reader) >= old(rdpos(l.reader)) && (!err ==> rdpos(l.reader) > old(rdpos(l.reader)) && !isnil(tok)) && lsame(l, old(l)) && !isnil(l.reader)
+//@   loop 0:
+//@     invariant !isnil(l.reader) && lsame(l, old(l)) && rdpos(l.reader) > old(rdpos(l.reader)) && depth >= 0
+//@     step next_element: !rdbad(l.reader) ==> rdpos(l.reader) == litNext(rddata(l.reader), prev(rdpos(l.reader)))
+//@     step nesting: !rdbad(l.reader) ==> depth == litDepth(rddata(l.reader), prev(rdpos(l.reader)), prev(depth))
+//@     step emitted_count: !rdbad(l.reader) ==> len(buf) == prev(len(buf)) + litEmits(rddata(l.reader), prev(rdpos(l.reader)), prev(depth))
+//@     step emitted_byte: !rdbad(l.reader) && litEmits(rddata(l.reader), prev(rdpos(l.reader)), prev(depth)) == 1 ==> buf[prev(len(buf))] == litByte(rddata(l.reader), prev(rdpos(l.reader)))
+//@     step earlier_output_kept: forall k int :: {buf[k]} 0 <= k && k < prev(len(buf)) ==> buf[k] == prev(buf)[k]
+//@     decreases rdlen(l.reader) - rdpos(l.reader)
+//@   loop 1:
+//@     invariant !isnil(l.reader) && lsame(l, old(l)) && 0 <= i && i <= 2 && len(octal) == i + 1 && rdpos(l.reader) == entry(rdpos(l.reader)) + i && same(buf, entry(buf)) && depth == entry(depth)
+//@     invariant forall k int :: {octal[k]} 0 <= k && k < len(octal) ==> octal[k] == rdat(l.reader, entry(rdpos(l.reader)) - 1 + k) && octDigit(octal[k])
+//@     decreases 2 - i
+//@   loop 2:
+//@     invariant val == mod(octFold(rddata(l.reader), rdpos(l.reader) - len(octal), $i), 256)
+
+// ISO 32000-1 7.3.4.3 hexadecimal strings: white space is ignored, every other byte up to '>' must be a hex digit
+// and is collected in order (ParseObject pairs the collected digits, padding an odd count with '0')
+//@ func (*Lexer) readHexString results (tok, err)
+//@   property C02, C06
+//@   requires !isnil(l.reader)
+//@   ensures progress: rdpos(l.reader) >= old(rdpos(l.reader)) && (!err ==> rdpos(l.reader) > old(rdpos(l.reader)) && !isnil(tok)) && lsame(l, old(l)) && !isnil(l.reader)
+//@   loop 0:
+//@     invariant !isnil(l.reader) && lsame(l, old(l)) && rdpos(l.reader) > old(rdpos(l.reader))
+//@     step white_space_ignored: pdfWS(rdat(l.reader, prev(rdpos(l.reader)))) ==> rdpos(l.reader) == prev(rdpos(l.reader)) + 1 && len(buf) == prev(len(buf))
+//@     step digit_collected: !pdfWS(rdat(l.reader, prev(rdpos(l.reader)))) ==> pdfHexDigit(rdat(l.reader, prev(rdpos(l.reader)))) && rdpos(l.reader) == prev(rdpos(l.reader)) + 1 && len(buf) == prev(len(buf)) + 1 && buf[prev(len(buf))] == rdat(l.reader, prev(rdpos(l.reader)))
+//@     step earlier_output_kept: forall k int :: {buf[k]} 0 <= k && k < prev(len(buf)) ==> buf[k] == prev(buf)[k]
+//@     decreases rdlen(l.reader) - rdpos(l.reader)
+
+// ISO 32000-1 7.3.5 names: a name ends at white space or a delimiter; #xx (two hex digits) is the byte xx
+//@ func (*Lexer) readName results (tok, err)
+//@   property C02, C06
+//@   requires !isnil(l.reader)
+//@   ensures progress: rdpos(l.reader) >= old(rdpos(l.reader)) && (!err ==> rdpos(l.reader) > old(rdpos(l.reader)) && !isnil(tok)) && lsame(l, old(l)) && !isnil(l.reader)
+//@   loop 0:
+//@     invariant !isnil(l.reader) && lsame(l, old(l)) && rdpos(l.reader) > old(rdpos(l.reader))
+//@     step regular_byte: rdat(l.reader, prev(rdpos(l.reader))) != '#' ==> !pdfWS(rdat(l.reader, prev(rdpos(l.reader)))) && !pdfDelim(rdat(l.reader, prev(rdpos(l.reader)))) && rdpos(l.reader) == prev(rdpos(l.reader)) + 1 && len(buf) == prev(len(buf)) + 1 && buf[prev(len(buf))] == rdat(l.reader, prev(rdpos(l.reader)))
+//@     step hash_escape: rdat(l.reader, prev(rdpos(l.reader))) == '#' ==> rdpos(l.reader) == prev(rdpos(l.reader)) + 3 && pdfHexDigit(rdat(l.reader, prev(rdpos(l.reader)) + 1)) && pdfHexDigit(rdat(l.reader, prev(rdpos(l.reader)) + 2)) && len(buf) == prev(len(buf)) + 1 && buf[prev(len(buf))] == 16 * pdfHexVal(rdat(l.reader, prev(rdpos(l.reader)) + 1)) + pdfHexVal(rdat(l.reader, prev(rdpos(l.reader)) + 2))
+//@     step earlier_output_kept: forall k int :: {buf[k]} 0 <= k && k < prev(len(buf)) ==> buf[k] == prev(buf)[k]
+//@     decreases rdlen(l.reader) - rdpos(l.reader)
+
+//@ spec func pdfDigit(b int) bool = b >= '0' && b <= '9'
+//@ spec func pdfAlpha(b int) bool = (b >= 'a' && b <= 'z') || (b >= 'A' && b <= 'Z')
+//@ spec func numStart(b int) bool = pdfDigit(b) || b == '-' || b == '+' || b == '.'
+
+// numbers: optional sign first, digits, at most one decimal point; the token is exactly the consumed bytes
+//@ func (*Lexer) readNumber results (tok, err)
+//@   property C02, C06
+//@   requires !isnil(l.reader) && !rdbad(l.reader) && rdbuf(l.reader) >= 1 && numStart(rdat(l.reader, rdpos(l.reader)))
+//@   ensures progress: rdpos(l.reader) >= old(rdpos(l.reader)) && (!err ==> rdpos(l.reader) > old(rdpos(l.reader)) && !isnil(tok)) && lsame(l, old(l)) && !isnil(l.reader)
+//@   ensures token_is_the_consumed_text: !err ==> len(tok.Value) == rdpos(l.reader) - old(rdpos(l.reader)) && forall k int :: {tok.Value[k]} 0 <= k && k < len(tok.Value) ==> tok.Value[k] == rdat(l.reader, old(rdpos(l.reader)) + k)
+//@   ensures kind: !err ==> (tok.Type == TokenReal <==> exists k int :: 0 <= k && k < len(tok.Value) && tok.Value[k] == '.') && (tok.Type == TokenReal || tok.Type == TokenInteger)
+//@   loop 0:
+//@     invariant !isnil(l.reader) && lsame(l, old(l)) && rdpos(l.reader) >= old(rdpos(l.reader)) && len(buf) == rdpos(l.reader) - old(rdpos(l.reader))
+//@     invariant forall k int :: {buf[k]} 0 <= k && k < len(buf) ==> buf[k] == rdat(l.reader, old(rdpos(l.reader)) + k)
+//@     invariant hasDecimal <==> exists k int :: 0 <= k && k < len(buf) && buf[k] == '.'
+//@     invariant len(buf) == 0 ==> !rdbad(l.reader) && rdbuf(l.reader) >= 1 && rdpos(l.reader) == old(rdpos(l.reader))
+//@     decreases rdlen(l.reader) - rdpos(l.reader)
+
+// keywords: a run of letters and digits; a lone R is the indirect-reference marker
+//@ func (*Lexer) readKeyword results (tok, err)
+//@   property C02, C06
+//@   requires !isnil(l.reader) && !rdbad(l.reader) && rdbuf(l.reader) >= 1 && pdfAlpha(rdat(l.reader, rdpos(l.reader)))
+//@   ensures progress: rdpos(l.reader) >= old(rdpos(l.reader)) && (!err ==> rdpos(l.reader) > old(rdpos(l.reader)) && !isnil(tok)) && lsame(l, old(l)) && !isnil(l.reader)
+//@   ensures token_is_the_consumed_text: !err ==> len(tok.Value) == rdpos(l.reader) - old(rdpos(l.reader)) && forall k int :: {tok.Value[k]} 0 <= k && k < len(tok.Value) ==> tok.Value[k] == rdat(l.reader, old(rdpos(l.reader)) + k)
+//@   loop 0:
+//@     invariant !isnil(l.reader) && lsame(l, old(l)) && rdpos(l.reader) >= old(rdpos(l.reader)) && len(buf) == rdpos(l.reader) - old(rdpos(l.reader))
+//@     invariant forall k int :: {buf[k]} 0 <= k && k < len(buf) ==> buf[k] == rdat(l.reader, old(rdpos(l.reader)) + k)
+//@     invariant len(buf) == 0 ==> !rdbad(l.reader) && rdbuf(l.reader) >= 1 && rdpos(l.reader) == old(rdpos(l.reader))
+//@     decreases rdlen(l.reader) - rdpos(l.reader)
+
+// comments run from % to the end of the line (CR, LF or CR LF, which is consumed)
+//@ func (*Lexer) readComment results (tok, err)
+//@   property C02
+//@   requires !isnil(l.reader)
+//@   ensures progress: rdpos(l.reader) >= old(rdpos(l.reader)) && (!err ==> rdpos(l.reader) > old(rdpos(l.reader)) && !isnil(tok)) && lsame(l, old(l)) && !isnil(l.reader)
+//@   loop 0:
+//@     invariant !isnil(l.reader) && lsame(l, old(l)) && rdpos(l.reader) > old(rdpos(l.reader))
+//@     decreases rdlen(l.reader) - rdpos(l.reader)
